@@ -434,6 +434,11 @@ fn tail(p: &Path, n: usize) -> String {
     s
 }
 
+/// An uncaught panic whose location is inside the repository under test (not the harness).
+fn panic_in_code_under_test(stderr: &str) -> bool {
+    stderr.lines().any(|l| l.contains("uncaught panic") && (l.contains("/rust-src/") || l.contains("/smart-contracts/")) && !l.contains("/harness/"))
+}
+
 fn classify_crash(stderr: &str) -> Option<&'static str> {
     if stderr.contains("AddressSanitizer") {
         Some("asan-report")
@@ -595,6 +600,13 @@ fn parent_main(e: &dyn Engine, args: &[String]) -> ! {
                     if !r.tier_name.is_empty() {
                         let ent = san_summary.entry(tn.to_string()).or_insert_with(|| json!({"evaluations":0u64,"shards_ok":0u64,"reports":0u64}));
                         ent["reports"] = json!(ent["reports"].as_u64().unwrap() + 1);
+                    }
+                } else if why == "exit code 101" && panic_in_code_under_test(&r.stderr_tail) {
+                    // the child died of a panic raised inside /repo's code that no oracle wrapped
+                    let loc = r.stderr_tail.lines().rev().find(|l| l.contains("uncaught panic")).unwrap_or("").to_string();
+                    let sig = format!("crash:uncaught-panic:{}:{}", tn, crate::fnv(loc.as_bytes()));
+                    if sigs.insert(sig.clone()) {
+                        violations.push((Violation { kind: "panic-in-code-under-test".into(), signature: sig, detail: format!("child died of a panic inside the code under test: {}", loc), case: json!({"regenerate": true}), case_index: idx }, r.tier_name.clone(), r.shard, r.nshards));
                     }
                 } else if plan.crash_is_violation && why.starts_with("killed by signal") {
                     let sig = format!("crash:signal:{}:{}:{}:{}", tn, seed, r.shard, idx);
